@@ -67,6 +67,21 @@ fn make_case(ctx: &Ctx, i: u64) -> Option<Case> {
         let mut o = gen::gen_foreign_opts(&mut rng, codec, 3000);
         o.permute_sections = i % 4 == 0 || o.permute_sections;
         o.gaps = true;
+        if i % 160 == 82 {
+            // ONE uncompressed leaf directory with more than 2^16 entries, tile data stored directly behind the leaf section
+            o = gen::gen_foreign_opts(&mut rng, R::C_NONE, 100);
+            o.codec = R::C_NONE;
+            o.n_entries = 70_000 + rng.usize(0, 3000);
+            o.regular = Some(1);
+            o.depth = 2;
+            o.leaf_entries = Some(400_000);
+            o.gaps = false;
+            o.permute_sections = false;
+            o.mixed_dirs = false;
+            o.alias_leaf_offset = false;
+            o.offset_style = 0;
+            o.small_metadata = true;
+        }
         let f = gen::gen_foreign(&mut rng, &o);
         Some(Case {
             header: f.header,
@@ -218,6 +233,18 @@ pub fn run(ctx: &mut Ctx) {
                         ctx.count("lookups_exact");
                     }
                 }
+                if let (Some(a), Some(b)) = (ids.iter().find(|i| **i >= range.0 && **i <= range.1), ids.iter().rev().find(|i| **i >= range.0 && **i <= range.1)) {
+                    mon.core.lock().expect("lock").fail_next = 1;
+                    let _ = block_on(pm.get_tile_by_id_async(*a));
+                    mon.core.lock().expect("lock").fail_next = 0;
+                    let from = mon.log_len();
+                    if let Ok(Some(_)) = block_on(pm.get_tile_by_id_async(*b)) {
+                        let (off, len) = c.truth[b];
+                        if check_lookup_ops(ctx, "PMTiles::get_tile_by_id_async", *b, off, len, &mon.ops_since(from), &mat) {
+                            ctx.count("lookups_exact_after_a_failed_lookup");
+                        }
+                    }
+                }
                 // a miss must not read anything
                 let from = mon.log_len();
                 let _ = block_on(pm.get_tile_by_id_async(u64::MAX - 5));
@@ -245,6 +272,19 @@ pub fn run(ctx: &mut Ctx) {
                     }
                     if check_lookup_ops(ctx, "PMTiles::get_tile_by_id", *id, off, len, &mon.ops_since(from), &mat) {
                         ctx.count("lookups_exact");
+                    }
+                }
+                // a lookup that fails (one transient stream error), then an ordinary one: it must again read exactly its range
+                if let (Some(a), Some(b)) = (ids.iter().find(|i| **i >= range.0 && **i <= range.1), ids.iter().rev().find(|i| **i >= range.0 && **i <= range.1)) {
+                    mon.core.lock().expect("lock").fail_next = 1;
+                    let _ = pm.get_tile_by_id(*a);
+                    mon.core.lock().expect("lock").fail_next = 0;
+                    let from = mon.log_len();
+                    if let Ok(Some(_)) = pm.get_tile_by_id(*b) {
+                        let (off, len) = c.truth[b];
+                        if check_lookup_ops(ctx, "PMTiles::get_tile_by_id", *b, off, len, &mon.ops_since(from), &mat) {
+                            ctx.count("lookups_exact_after_a_failed_lookup");
+                        }
                     }
                 }
                 let from = mon.log_len();
